@@ -157,7 +157,9 @@ LITERALS = [('1', 'int'), ('2.5', 'float'), ("'s'", 'str'), ("b'b'", 'bytes'), (
             ("['a', 'b']", 'list[str]'), ('-1', None), ('1 + 2', None), ("('a', 1)", 'tuple'), ('{}', 'dict'),
             # containers whose elements are not of one type: nothing more than the container type can be stated
             ('[1, None, 3]', 'list'), ("{'x': 'X', 'y': None}", 'dict'), ('(None, 2.5)', 'tuple'), ('{None, 1}', 'set'), ('[True, 1]', 'list'),
-            ("[1, 2.0]", 'list'), ("{'a': 1, 2: 1}", 'dict'), ("(b'b', 's')", 'tuple'), ('[None, None]', 'list[None]')]
+            ("[1, 2.0]", 'list'), ("{'a': 1, 2: 1}", 'dict'), ("(b'b', 's')", 'tuple'), ('[None, None]', 'list[None]'),
+            # values that are operations, not literals: their type is the type of the result, if it is stated at all
+            ('3 + 4j', None), ('1 + 2.5', None), ('7 / 2', None), ("[1] + ['a']", None), ("'%d' % 3", None), ('2 ** -1', None), ("(1,) + ('a',)", None)]
 
 BLOCKS = ['if', 'try', 'with', 'for', 'try-finally', 'if-else', 'if-name-ne', 'if-not-main', 'while-break', 'if-name-ne-rev',
           'if-elif', 'with-as', 'if-name-other-ne']
@@ -335,7 +337,9 @@ class _Gen:
                 a |= anc.get(c[1], set())
             anc[uid] = a
         elif r.random() < .3:
-            it.bases = [r.choice(['Exception', 'ValueError', 'object', 'dict', 'KeyError', 'Exception', 'LookupError', 'OSError'])]
+            # (IOError and EnvironmentError are other names of OSError)
+            it.bases = [r.choice(['Exception', 'ValueError', 'object', 'dict', 'KeyError', 'Exception', 'LookupError', 'OSError', 'IOError', 'EnvironmentError', 'UserWarning',
+                                  'StopIteration', 'BaseException', 'ArithmeticError', 'UnicodeError'])]
             it.base_uids = [None]
         it.doc = self.doc(f'class {name}', refs)
         qual = (scope + '.' if scope else '') + name
@@ -603,6 +607,9 @@ class _Gen:
                 s.notes.setdefault('dups', []).append(d.uid)
             elif f.rebind and d.kind == 'var' and r.random() < .35:
                 items.append(Item(kind='dup', members=[self.make_dup(d, False)], name=d.name, uid=d.uid))
+            elif f.rebind and d.kind == 'var' and d.value in ('1', '2.5', '-1') and not d.ann and r.random() < .5:
+                # updated in place by an operation that changes the type of the value
+                items.append(Item(kind='raw', text=f'{d.name} {r.choice(["/= 4", "+= 0.5", "*= 1j"])}'))
             if f.rebind and d.kind == 'class' and not isinstance(d, type(None)) and items and items[-1] is d and r.random() < .12:
                 # the name was imported (a fallback with another exception-ness) before the class statement defines it; a subclass follows
                 fb = 'KeyError' if not (d.bases and d.bases[0] in ('Exception', 'ValueError', 'KeyError', 'LookupError', 'OSError')) else 'dict'
